@@ -303,6 +303,18 @@ end:
 	if buf[d] == '>' {
 		br.a = false // No Attributes
 		d++
+	} else if isSpace(buf[d]) && tag.t == stopTag {
+		// ETag ::= '</' Name S? '>' - the end of the tag is consumed with it, so
+		// that what follows starts at a token boundary like after any other tag
+		br.a = false
+		if _, err = br.Discard(d + i); err != nil {
+			err = errors.Wrap(err, "Tag Header (discard)")
+			return
+		}
+		if err = br.skipEq('>'); err != nil {
+			err = errors.Wrap(err, "Tag Header (end tag)")
+		}
+		return
 	} else if isSpace(buf[d]) { // Attributes
 		br.a = true
 	} else if buf[d] == '/' && buf[d+1] == '>' { // SoloTag
